@@ -50,6 +50,25 @@ Proof. exact roundtrip_l. Qed.
 Print Assumptions from_go_exact.
 Print Assumptions roundtrip.
 
+(* the reflected CONSTRUCTOR  new T(a0, a1, ..)  of a registered struct (third conversion route:
+   setFieldValue): the i-th argument is stored into the i-th public field.  Every stored value has
+   the field's type; an argument of the field's own sort (string / int, int64 / float64 / bool
+   fields hold every value of their sort) arrives exactly; never a crash, for any fields and
+   arguments.  Fields of other kinds cannot be set through the constructor (catchable error). *)
+Theorem construct_typed : forall lib fields args gs,
+  forallb ctor_kind_ok fields = true -> construct lib fields args = Ok gs -> map dyn_kind gs = fields.
+Proof. exact construct_typed_l. Qed.
+Theorem set_field_matching : forall lib k v, ctor_kind_ok k = true -> wf v = true -> matching v k = true ->
+  set_field lib k v = Ok (inject k v).
+Proof. exact set_field_matching_l. Qed.
+Theorem set_field_null : forall lib k, ctor_kind_ok k = true -> set_field lib k SNull = Ok (zero_of k).
+Proof. exact set_field_null_l. Qed.
+Theorem construct_never_crashes : forall lib fields args, not_crash (construct lib fields args) = true.
+Proof. exact construct_never_crashes_l. Qed.
+Print Assumptions construct_typed.
+Print Assumptions set_field_matching.
+Print Assumptions construct_never_crashes.
+
 (* "no registered signature makes the call crash the interpreter": for EVERY signature (any arity,
    any kinds incl. unsupported ones), any arguments (any number, any script values) and any
    result, the call is a value, no result, or a catchable error — never a reflect.Call panic *)
